@@ -1,4 +1,6 @@
 import Driver.EncSuite
+import Driver.PartSuite
+import Driver.PMapSuite
 /-!
   Model driver.  usage: driver <suite> < ops-file
   Reads lines; `case N` is echoed (and resets suite state), `op ...` produces
@@ -15,9 +17,25 @@ partial def loopStateless (h : IO.FS.Stream) (out : IO.FS.Stream) (f : List Stri
   | _ => pure ()
   loopStateless h out f
 
+partial def loopState {σ : Type} [Inhabited σ] (h : IO.FS.Stream) (out : IO.FS.Stream)
+    (f : σ → List String → σ × String) (s : σ) : IO Unit := do
+  let line ← h.getLine
+  if line.isEmpty then return ()
+  match words line with
+  | "case" :: rest =>
+    out.putStrLn ("case " ++ " ".intercalate rest)
+    loopState h out f default
+  | "op" :: rest =>
+    let (s', o) := f s rest
+    out.putStrLn ("obs " ++ o)
+    loopState h out f s'
+  | _ => loopState h out f s
+
 def main (args : List String) : IO UInt32 := do
   let stdin ← IO.getStdin
   let stdout ← IO.getStdout
   match args with
   | ["enc"] => loopStateless stdin stdout Enc.step; return 0
+  | ["part"] => loopState stdin stdout Part.step (default : Part.S); return 0
+  | ["pmap"] => loopState stdin stdout PMapS.step (default : PMapS.S); return 0
   | _ => IO.eprintln "usage: driver <suite>"; return 2
